@@ -513,7 +513,7 @@ static std::string genScript(Rng& r, Out& out) {
 static std::vector<long> pickK(Rng& r, long N, bool thorough) {
     std::vector<long> ks;
     if (N <= 0) return ks;
-    long all = thorough ? 48 : 7;
+    long all = thorough ? 32 : 7;
     if (N <= all) { for (long k = 1; k <= N; k++) ks.push_back(k); return ks; }
     ks = {1, 2, N - 1, N, (N + 1) / 2};
     long strata = all - 5;
@@ -575,7 +575,7 @@ int main(int argc, char** argv) {
                 const OpDef& od = OPS[(size_t) ((seed + (uint64_t) i) % (uint64_t) NOPS)];
                 std::string op = od.name;
                 uint64_t iseed = r.next() % 1000000007ULL;
-                int size = thorough ? (int) r.below(4) : (r.chance(15) ? 0 : r.chance(60) ? 1 : 2);
+                int size = thorough ? (r.chance(12) ? 3 : (int) r.below(3)) : (r.chance(15) ? 0 : r.chance(60) ? 1 : 2);
                 Input in = makeInput(od.in, iseed, size);
                 if (!in.a) { out.count("skip_input_build_failed"); continue; }
                 long N = 0, N2 = 0;
